@@ -129,12 +129,11 @@ def preload : Nat → FS → List Nat → Tmpl → St → Res
 
 /-- class a run-time INCLUDE event resolves to.  Markup templates store the class in the event
     (`{'xml': …, 'text': …}.get(parse) or self.__class__`); text templates store `None`, and
-    `_include` substitutes the class of the template **whose filter sees the event** — which,
-    once a text template has been inlined into a markup template, is the markup class. -/
-def inclCls (writer : Cls) (p : Parse) (host : Cls) : Cls :=
-  match writer with
-  | .markup => childCls .markup p
-  | _ => host
+    `Template._prepare` of the **writing** template fills in `cls or self.__class__` (genshi fix
+    37ed34d: before it, `_include` substituted the class of the template whose filter saw the event,
+    i.e. the markup class once a text template had been inlined into a markup template).  `host` is
+    kept as a parameter to document that it no longer matters. -/
+def inclCls (writer : Cls) (p : Parse) (_host : Cls) : Cls := childCls writer p
 
 /-- `generate()` of a template and the consumption of its stream.  `prep`: this is a fresh
     `generate()` (so `_prepare` runs first when `auto_reload` is off), `host`: class of the
